@@ -227,8 +227,15 @@ func (in *Instance) declOpaque(t *geval.SymType) string {
 
 // opaqueLit is the underlying type of a type the path knows nothing about:
 // a struct nobody can look into, comparable only if the path says so.
+// impliedNilable: the path has excluded every kind whose values are not
+// nilable (basic, struct, array): what is left are pointers, slices, maps,
+// channels, functions and interfaces.
+func impliedNilable(f *geval.TFact) bool {
+	return f != nil && f.Kind == geval.KUnknown && f.NotKinds[geval.KBasic] && f.NotKinds[geval.KStruct] && f.NotKinds[geval.KArray]
+}
+
 func (in *Instance) opaqueLit(r *geval.SymType) string {
-	if in.Path.Preds["o-fork.Nilable("+r.Desc+")"] == geval.Yes {
+	if in.Path.Preds["o-fork.Nilable("+r.Desc+")"] == geval.Yes || impliedNilable(in.Path.Facts[r.R()]) {
 		// an opaque type that has nil as a value (pointer, slice, map, func, interface, chan)
 		return fmt.Sprintf("*struct{ %sopq%d [0]func() }", Mark, r.ID)
 	}
